@@ -456,7 +456,8 @@ AFF2 = [[[1.0, 0.0], [0.0, 1.0]], _rot(math.cos(0.5), math.sin(0.5)), [[2.0, 0.0
 AFF3 = [[[1.0, 0, 0], [0, 1.0, 0], [0, 0, 1.0]],
         [[math.cos(0.5), -math.sin(0.5), 0], [math.sin(0.5), math.cos(0.5), 0], [0, 0, 1.0]],
         [[1.0, 0, 0], [0, 2.0, 0], [0, 0, 0.5]], [[1.0, 0.5, 0], [0, 1.0, 0.25], [0, 0, 1.0]],
-        [[0, 0, 1.0], [1.0, 0, 0], [0, 1.0, 0]], [[1.0, 0, 0], [0, -1.0, 0], [0.3, 0, 1.0]]]
+        [[0, 0, 1.0], [1.0, 0, 0], [0, 1.0, 0]], [[1.0, 0, 0], [0, -1.0, 0], [0.3, 0, 1.0]],
+        [[0, 0, 1.0], [0, 1.0, 0], [1.0, 0, 0]]]
 
 
 def build_decomp(spec):
@@ -514,6 +515,15 @@ def build_decomp(spec):
 
 def check_decomp(spec, ctx):
     from pyiga import assemble, bspline, assemblers
+    if spec["problem"] == "heat":
+        # space-time heat form (not symmetric): time derivatives stay parametric and a space-time cylinder is
+        # assumed by the form, so: no re-parametrisation, geometry (x.., t) = (u_{d-1}, .., u_0) + shift
+        spec = dict(spec)
+        spec["mode"] = "override" if spec["mode"] == "override" else "keep"
+        spec["rep"] = [[0, 0] for _ in spec["rep"]]
+        spec["gperm"] = 0
+        spec["sym"] = 0
+        spec["geo"] = dict(spec["geo"], eps=0.0, aff=5 if spec["dim"] == 2 else 6)
     B = build_decomp(spec)
     d = B["d"]
     mode = spec["mode"]
@@ -599,9 +609,12 @@ def check_decomp(spec, ctx):
     if spec["problem"] == "mass":
         Asm = assemblers.MassAssembler2D if d == 2 else assemblers.MassAssembler3D
         A1 = ctx.sut(assemble.mass, kvs1, geo1, what="mass(single)")
-    else:
+    elif spec["problem"] == "stiffness":
         Asm = assemblers.StiffnessAssembler2D if d == 2 else assemblers.StiffnessAssembler3D
         A1 = ctx.sut(assemble.stiffness, kvs1, geo1, what="stiffness(single)")
+    else:
+        Asm = assemblers.HeatAssembler_ST2D if d == 2 else assemblers.HeatAssembler_ST3D
+        A1 = ctx.sut(assemble.assemble, Asm, kvs1, geo=geo1, what="heat_st(single)")
     Rhs = assemblers.L2FunctionalAssemblerPhys2D if d == 2 else assemblers.L2FunctionalAssemblerPhys3D
     b1 = np.asarray(ctx.sut(assemble.assemble, Rhs, kvs1, geo=geo1, f=f, what="rhs(single)")).ravel()
     if spec["fkw"]:
@@ -735,7 +748,7 @@ def strat_decomp(draw, tier):
     nbc = draw(st.integers(0, 4))
     bc = [[draw(st.integers(0, 50)), draw(st.integers(0, 4)), draw(st.integers(0, 1))] for _ in range(nbc)]
     return {"dim": d, "dirs": dirs, "geo": geo, "mode": mode, "rep": rep, "gperm": draw(st.integers(0, 5)),
-            "order": order, "manual": manual, "problem": draw(st.sampled_from(["mass", "stiffness"])),
+            "order": order, "manual": manual, "problem": draw(st.sampled_from(["mass", "stiffness", "stiffness", "heat"])),
             "sym": draw(st.integers(0, 1)), "fmt": draw(st.sampled_from(["csr", "csr", "csc"])),
             "fkw": draw(st.integers(0, 1)), "f": draw(st.integers(0, 3)), "bc": bc}
 
